@@ -499,7 +499,15 @@ fn reject_case(c: &mut Case, kind: Rej, n: usize, uk: &UKind, scls: SCls) {
             }
             if i < n {
                 let x = xs[i];
-                if guarded(c, "push", &format!("push({}) as value #{} (admissible) after {} rejections", x, i, rejected), &d, || efb.push(x)).is_none() {
+                // admissible values also go in through push_unchecked (within its
+                // documented precondition: monotone, <= u, fewer than n values so
+                // far): the checked push must keep rejecting bad values afterwards
+                let unchecked = matches!(kind, Rej::Mixed | Rej::OutOfOrder | Rej::TooMany) && c.rng().random_bool(0.4);
+                if unchecked {
+                    if guarded(c, "push_unchecked", &format!("push_unchecked({}) as value #{} (admissible) after {} rejections", x, i, rejected), &d, || unsafe { efb.push_unchecked(x) }).is_none() {
+                        return;
+                    }
+                } else if guarded(c, "push", &format!("push({}) as value #{} (admissible) after {} rejections", x, i, rejected), &d, || efb.push(x)).is_none() {
                     return;
                 }
                 accepted.push(x);
